@@ -40,7 +40,7 @@ def concretise(seq):
     return "\n".join(lines) + "\nEND\n"
 
 
-def read_input(text, ignore):
+def read_input(text, ignore, with_h=False):
     out = []
     model = 1
     for ln in text.splitlines():
@@ -51,16 +51,16 @@ def read_input(text, ignore):
             el = r.name[0:2].strip().strip("0123456789")
             if len(r.name.strip()) == 4:
                 el = el[:1]
-            if el.upper() == "H" or r.resn in ignore:
+            if (el.upper() == "H" and not with_h) or r.resn in ignore:
                 continue
             out.append({"m": model, "alt": r.alt, "key": [r.chain, r.num, r.icode], "resn": r.resn.strip(), "nm": r.name.strip()})
     return out
 
 
-def record(rr, text, ignore):
+def record(rr, text, ignore, with_h=False):
     mol = rr.mol
     names = list(mol.conformation_names)
-    rec = {"inp": read_input(text, ignore), "confs": [[int(n[:-1]), n[-1]] for n in names], "cname": names,
+    rec = {"inp": read_input(text, ignore, with_h), "confs": [[int(n[:-1]), n[-1]] for n in names], "cname": names,
            "atoms": {}, "grp": {}, "avr": [], "eps": 3}
 
     def grec(g):
@@ -82,7 +82,7 @@ def record(rr, text, ignore):
     for n in names:
         conf = mol.conformations[n]
         rec["atoms"][n] = [[[" " if a.chain_id == "_" else a.chain_id, a.res_num, a.icode or " "], a.name, a.res_name.strip()]
-                           for a in conf.atoms if a.element != "H"]
+                           for a in conf.atoms if a.element != "H" or with_h]
         rec["grp"][n] = [grec(g) for g in conf.groups if g.use_in_calculations()]
     rec["avr"] = [grec(g) for g in mol.conformations["AVR"].groups]
     return rec
@@ -266,9 +266,19 @@ def run(ctx):
     recs, metas = [], []
     from .. import pipeline
     stage_events = []
-    for name, text in inputs:
+    # supplied hydrogens that are kept (--keep-protons): they are atoms of the file like any others - every conformation
+    # is completed with them (the program's own hydrogens of the first conformation, written back without alt-loc label)
+    from . import c07
+    keep = []
+    for nm, text in inputs:
+        if nm in ("alt-rotamers-AB", "nterm-residue-altAB", "conf-alt-AB", "model2-missing-atoms") + (("4DFR", "alt-digits-12") if ctx.thorough() else ()):
+            ht = c07.with_own_hydrogens(text)
+            if ht:
+                keep.append((nm + " +own-hydrogens -k", ht))
+    inputs = [(n_, t_, ["-q"]) for n_, t_ in inputs] + [(n_, t_, ["-q", "-k"]) for n_, t_ in keep]
+    for name, text, ropts in inputs:
         with pipeline.recording() as ev:
-            rr = runner.run(text, ["-q"], write=False)
+            rr = runner.run(text, ropts, write=False)
         stage_events.append((name, ev))
         ctx.count()
         if rr.exc is not None:
@@ -276,8 +286,8 @@ def run(ctx):
                           f"{name}: {rr.exc!r}", {"pdb": text})
             continue
         ctx.nontriv(text)
-        recs.append(record(rr, text, ign))
-        metas.append({"input": name, "pdb": text, "confs": recs[-1]["cname"]})
+        recs.append(record(rr, text, ign, with_h=("-k" in ropts)))
+        metas.append({"input": name, "pdb": text, "confs": recs[-1]["cname"], "optargs": ropts[1:]})
     wd = tlc.workdir("c08")
     tf = os.path.join(wd, "conf.json")
     json.dump(recs, open(tf, "w"))
